@@ -238,6 +238,8 @@ class SInt:
 
     # ---- arithmetic with no-overflow side conditions
     def __add__(self, o):
+        if isinstance(o, (float, SFloat)):
+            return SFloat()
         if not is_intlike(o):
             return NotImplemented
         a, b = self.e, to_bv(o)
@@ -245,11 +247,15 @@ class SInt:
         return mk_int(a + b)
 
     def __radd__(self, o):
+        if isinstance(o, (float, SFloat)):
+            return SFloat()
         if not is_intlike(o):
             return NotImplemented
         return SInt(to_bv(o)).__add__(self)
 
     def __sub__(self, o):
+        if isinstance(o, (float, SFloat)):
+            return SFloat()
         if not is_intlike(o):
             return NotImplemented
         a, b = self.e, to_bv(o)
@@ -257,6 +263,8 @@ class SInt:
         return mk_int(a - b)
 
     def __rsub__(self, o):
+        if isinstance(o, (float, SFloat)):
+            return SFloat()
         if not is_intlike(o):
             return NotImplemented
         return SInt(to_bv(o)).__sub__(self)
@@ -273,6 +281,8 @@ class SInt:
         return mk_int(z3.If(self.e < 0, -self.e, self.e))
 
     def __mul__(self, o):
+        if isinstance(o, (float, SFloat)):
+            return SFloat()
         if not is_intlike(o):
             return NotImplemented
         a, b = self.e, to_bv(o)
@@ -280,9 +290,25 @@ class SInt:
         return mk_int(a * b)
 
     def __rmul__(self, o):
+        if isinstance(o, (float, SFloat)):
+            return SFloat()
         if not is_intlike(o):
             return NotImplemented
         return self.__mul__(o)
+
+    def __truediv__(self, o):
+        if isinstance(o, (int, float, SInt, SBool, SFloat)):
+            if is_intlike(o) and _CTX is not None and _CTX.fork(to_bv(o) == _bvv(0)):
+                _CTX.raise_py(ZeroDivisionError)
+            return SFloat()
+        return NotImplemented
+
+    def __rtruediv__(self, o):
+        if isinstance(o, (int, float, SFloat)):
+            if _CTX is not None and _CTX.fork(self.e == _bvv(0)):
+                _CTX.raise_py(ZeroDivisionError)
+            return SFloat()
+        return NotImplemented
 
     def __floordiv__(self, o):
         if not is_intlike(o):
@@ -377,6 +403,44 @@ class SInt:
     # ---- int methods used by the code base
     def bit_length(self):
         return BitLength(self)
+
+
+class SFloat:
+    """result of mixing a symbolic int with a float: an opaque float (only formatting is modelled)."""
+
+    def __format__(self, spec):
+        try:
+            format(0.0, spec)
+        except ValueError:
+            raise
+        return OPAQUE
+
+    def __str__(self):
+        return OPAQUE
+
+    __repr__ = __str__
+
+    def _arith(self, o):
+        if isinstance(o, (int, float, SInt, SBool, SFloat)):
+            return SFloat()
+        return NotImplemented
+    __add__ = __radd__ = __sub__ = __rsub__ = __mul__ = __rmul__ = __truediv__ = __rtruediv__ = _arith
+
+    def __neg__(self):
+        return SFloat()
+
+    def _cmp(self, o):
+        raise Unsupported("comparison of an opaque float")
+    __lt__ = __le__ = __gt__ = __ge__ = _cmp
+
+    def __eq__(self, o):
+        raise Unsupported("comparison of an opaque float")
+
+    def __hash__(self):
+        return id(self)
+
+    def __bool__(self):
+        raise Unsupported("truth value of an opaque float")
 
 
 class BitLength:
